@@ -336,7 +336,7 @@ func (fc *FieldCase) rawInput() interface{} {
 			l = append(l, "s"+itoa(n)+"_"+itoa(i))
 		}
 		return l
-	case KA2, KPA2:
+	case KA2, KPA2, KIA2:
 		return []interface{}{uint64(10 + n%80), uint64(11 + n%80)}
 	case KMA2:
 		return map[string]interface{}{"p": []interface{}{uint64(10 + n%80), uint64(11 + n%80)}, "q": []interface{}{uint64(12 + n%80), uint64(13 + n%80)}}
@@ -508,6 +508,8 @@ func (sc *StructCase) prefill(v reflect.Value) {
 			f.Set(reflect.ValueOf([2]int{1, 2}))
 		case KPA2:
 			f.Set(reflect.ValueOf(&[2]int{1, 2}))
+		case KIA2:
+			f.Set(reflect.ValueOf(IA2{1, 2}))
 		case KMA2:
 			f.Set(reflect.ValueOf(map[string][2]int{"p": {1, 2}, "z": {9, 9}}))
 		case KMInt:
@@ -655,6 +657,15 @@ func (sc *StructCase) apply(v reflect.Value, present bool) {
 				}
 			}
 			f.Set(reflect.ValueOf(d))
+			continue
+		case KIA2:
+			// InitDefaults runs on the field, then the setting (a whole list) replaces what it made
+			if mentioned {
+				l := ints(fc.In)
+				f.Set(reflect.ValueOf(IA2{l[0], l[1]}))
+			} else {
+				f.Set(reflect.ValueOf(IA2{71, 72}))
+			}
 			continue
 		case KPI:
 			// without a setting the value is what InitDefaults makes of the zero value
